@@ -134,7 +134,7 @@ func (w *cworld) do(c ref.AgentCall, reentry *ref.AgentCall, nested bool) {
 	switch c.Op {
 	case "process":
 		r.token = int(w.tokens.Add(1))
-		msg = &stun.Message{TransactionID: idOf(c.ID)}
+		msg = &stun.Message{TransactionID: idOf(c.ID), Type: stun.MessageType{Method: stun.MethodBinding, Class: stun.MessageClass(c.C & 3)}}
 	case "stoperr":
 		r.token = int(w.tokens.Add(1))
 		uerr = &uniqErr{r.token}
@@ -325,8 +325,10 @@ func genCSpec(ids int) *rapid.Generator[cspec] {
 		switch op {
 		case "start":
 			c.ID, c.T = rapid.IntRange(0, ids-1).Draw(rt, "id"), int64(rapid.SampledFrom([]int{10, 20, 30}).Draw(rt, "deadline"))
-		case "stop", "stoperr", "process":
+		case "stop", "stoperr":
 			c.ID = rapid.IntRange(0, ids-1).Draw(rt, "id")
+		case "process":
+			c.ID, c.C = rapid.IntRange(0, ids-1).Draw(rt, "id"), rapid.IntRange(0, 3).Draw(rt, "class")
 		case "collect":
 			c.T = int64(rapid.SampledFrom([]int{10, 20, 21, 31}).Draw(rt, "time"))
 		case "sethandler":
